@@ -214,7 +214,7 @@ def analyze_table(ctx):
                 _rec(d, "tail-test", False, "after the last match the tail is not compared with the input length", loc)
         else:
             if "eq(%s, %s)" % (S, PE) in gs or "eq(%s, %s)" % (PE, S) in gs:
-                _rec(d, "adjacent-match", r == "Option::Some{0: AnalyzeIter::analyze_entry(a1, a1.matcher.search[Range::Range{start: %s, end: %s}])}" % (S, E) and st.get("a1.prev_end") == "Option::Some{0: %s}" % E and st.get("a1.next_substring") == "Option::None", "a match starting at prev_end must be delivered as search[start..end] with prev_end := end; found %s / %s" % (r[:120], st), loc)
+                _rec(d, "adjacent-match", r == "Option::Some{0: AnalyzeIter::analyze_entry(a1, a1.matcher.search[Range::Range{start: %s, end: %s}])}" % (S, E) and st.get("a1.prev_end") == "Option::Some{0: %s}" % E and (st.get("a1.next_substring") == "Option::None" or ("a1.next_substring" not in st and any(re.match(r"^variant\((Option::take\()?a1\.next_substring\)?\)=None$", g) for g in gs))), "a match starting at prev_end must be delivered as search[start..end] with prev_end := end; found %s / %s" % (r[:120], st), loc)
             elif "!eq(%s, %s)" % (S, PE) in gs or "!eq(%s, %s)" % (PE, S) in gs:
                 _rec(d, "gap-before-match", r == "Option::Some{0: AnalyzeIter::analyze_entry(a1, a1.matcher.search[Range::Range{start: %s, end: %s}])}" % (PE, S) and st.get("a1.next_substring") == "Option::Some{0: a1.matcher.search[Range::Range{start: %s, end: %s}]}" % (S, E) and "a1.prev_end" not in st, "a match after a gap must first deliver search[prev_end..start] and keep search[start..end] pending; found %s / %s" % (r[:120], st), loc)
             else:
